@@ -2,8 +2,10 @@
 //! compare it with what the real tower did (API replies, sqlite rows, RPC log).
 //!
 //! The model is predictive for users / slots / stored appointments, and *reads* node verdicts from the RPC log to
-//! decide which of the allowed outcomes a triggered appointment must have. Where the statements are silent
-//! (penalty already buried: verdict -27) the record becomes `unspecified` and the observed state is adopted.
+//! decide which of the allowed outcomes a triggered appointment must have. Where the statements are silent (a *new*
+//! breach whose penalty the node reports as already in its chain: verdict -27) the record becomes `unspecified` and
+//! the observed state is adopted. For an appointment that is already responded, -27 on a re-submission is neither a
+//! rejection nor 100 confirmations: the response must stay.
 
 use std::collections::{BTreeMap, BTreeSet};
 
@@ -893,7 +895,10 @@ impl Model {
                                     match v {
                                         Verdict::Ok | Verdict::Transport => {}
                                         Verdict::Err(RPC_VERIFY_ALREADY_IN_CHAIN) => {
-                                            self.recs.get_mut(&k).unwrap().unspecified = true;
+                                            // The node already has the penalty in its chain (in a block the tower has not
+                                            // processed yet, e.g. a block replayed after a crash): that is not the node
+                                            // rejecting it, and it is not buried 100 deep either: the response stays.
+                                            self.probe("responded_dispute_again_penalty_already_in_chain");
                                         }
                                         _ => dropped.push(k),
                                     }
@@ -992,8 +997,9 @@ impl Model {
                     match v {
                         Verdict::Ok | Verdict::Transport => {}
                         Verdict::Err(RPC_VERIFY_ALREADY_IN_CHAIN) => {
-                            // Penalty got confirmed in a block the tower has not processed yet (lagging poll).
-                            r.unspecified = true;
+                            // Penalty got confirmed in a block the tower has not processed yet (lagging poll): the node has
+                            // it, nothing was rejected and nothing is buried 100 deep yet, so the tracker stays (C04: forgotten
+                            // when, and only when, buried 100 deep; dropped when the node rejects the re-submission).
                             self.probe("rebroadcast_already_in_chain");
                         }
                         _ => {
